@@ -34,7 +34,7 @@ class LostAnchor(Exception):
     pass
 
 
-LENIENT = {'on': False, 'dropped': []}
+LENIENT = {'on': False, 'dropped': [], 'force': set()}
 
 
 def _lost(msg):
@@ -421,9 +421,10 @@ def splice_fn(fid, text, sections, opts):
     return out
 
 
-def assemble(template_path, repo, vacuity=False, lenient=False, auto=None):
+def assemble(template_path, repo, vacuity=False, lenient=False, auto=None, degrade=None):
     LENIENT['on'] = lenient
     LENIENT['dropped'] = []
+    LENIENT['force'] = set(degrade or [])
     try:
         text, meta = _assemble(template_path, repo, vacuity)
         meta['dropped_anchors'] = list(LENIENT['dropped'])
@@ -432,6 +433,7 @@ def assemble(template_path, repo, vacuity=False, lenient=False, auto=None):
         return text, meta
     finally:
         LENIENT['on'] = False
+        LENIENT['force'] = set()
 
 
 def _assemble(template_path, repo, vacuity=False):
@@ -572,7 +574,10 @@ def _assemble(template_path, repo, vacuity=False):
             ndrop = len(LENIENT['dropped'])
             text0 = text
             text = splice_fn(fid_out, text, sections, opts)
-            if LENIENT['on'] and len(LENIENT['dropped']) > ndrop:
+            if fid_out in LENIENT.get('force', ()):
+                # a proof hint of this function no longer compiles against the changed code (it names something that is gone)
+                LENIENT['dropped'].append('%s: a proof hint refers to code that no longer exists' % fid_out)
+            if (LENIENT['on'] or fid_out in LENIENT.get('force', ())) and len(LENIENT['dropped']) > ndrop:
                 # a hint of this function lost its anchor: proof hints may depend on each other (ghost variables), so ALL hints of the
                 # function are dropped and it is verified against its contract (signature clauses) alone
                 LENIENT['dropped'].append('%s: all proof hints of this function dropped, contract clauses kept' % fid_out)
